@@ -688,11 +688,36 @@ def _r05_termination(repo, sink, f, fn, loop, cfg, call):
     sink.check(ok, "R05", "termination-test", f,
                ok="run loop continues iff some component has time < end_time (strict)",
                bad=f"termination comparison is not the strict `time < end_time`: {detail}")
+    # a component that reported FINISHED in this very update must not keep the loop alive
+    cmp0 = cmps[0]
+    holder = cmp0
+    while holder is not None and not isinstance(holder, (ast.If, ast.While, ast.comprehension, ast.GeneratorExp, ast.ListComp)):
+        holder = getattr(holder, "_parent", None)
+    cond_txt = ""
+    if isinstance(holder, (ast.If, ast.While)):
+        cond_txt = U(holder.test)
+    elif holder is not None:
+        cond_txt = U(holder)
+    excl = "FINISHED" in cond_txt
+    if not excl:
+        # or: the iterated collection is re-filtered after the step
+        it_for = cmp0
+        while it_for is not None and not isinstance(it_for, ast.For):
+            it_for = getattr(it_for, "_parent", None)
+        if it_for is not None and isinstance(it_for.iter, ast.Name):
+            for n in walk(loop):
+                if isinstance(n, ast.Assign) and any(isinstance(t, ast.Name) and t.id == it_for.iter.id for t in n.targets) \
+                        and "FINISHED" in U(n.value) and cfg.dominates(cfg.node_of(call), cfg.node_of(n)):
+                    excl = True
+    sink.check(excl, "R05", "termination-excludes-finished", f,
+               ok="the termination test ignores components that are FINISHED after this update",
+               bad="the termination test does not look at the status after the update: a component that finished in this "
+                   "update with time < end_time keeps the loop alive (another component is updated past end_time, or the "
+                   "selection runs empty)")
     # every path from the step back to the loop head passes the termination decision
     cn = cfg.node_of(call)
     head = cfg.node_of(loop)
     gate = None
-    cmp0 = cmps[0]
     if any(cmp0 is x for x in ast.walk(loop.test)):
         gate = head  # idiom C: `while <some component before end>`
     else:
